@@ -1118,12 +1118,14 @@ class Vector():
 	def max(self):
 		if self.ndims() == 2:
 			return self.copy((c.max() for c in self.cols()), name=None).T
-		return max(self)
+		# Exclude None values, like every other reduction (None if nothing is left)
+		return max((v for v in self._underlying if v is not None), default=None)
 
 	def min(self):
 		if self.ndims() == 2:
 			return self.copy((c.min() for c in self.cols()), name=None).T
-		return min(self)
+		# Exclude None values, like every other reduction (None if nothing is left)
+		return min((v for v in self._underlying if v is not None), default=None)
 
 	def sum(self):
 		if self.ndims() == 2:
